@@ -154,7 +154,7 @@ class Replay(Policy):
     kind = "replay"
 
     def __init__(self, segments):
-        self.segs = [list(x) for x in segments]
+        self.segs = [list(x[:2]) for x in segments]
         self.i = 0
         self.n = 0
 
